@@ -43,7 +43,7 @@ def logOp (st : LS) (op : String) : Option LS := do
     let ft ← t.toNat?
     if kind == 'L' then
       some { st with enq := st.enq ++ [{ id := st.enq.length, owner := fo, typ := ft }] }
-    else if kind == 'F' then
+    else if kind == 'F' || kind == 'C' then   -- 'C': concurrent callers on a logger at rest
       some { st with minProc := st.enq.length, outs := st.outs ++ [modelFilter st.n st.enq fo ft] }
     else if kind == 'f' then do
       let obs ← ids? (← res)
